@@ -241,7 +241,20 @@ class Cursor:
 def cursor_typestate(ctx, rep, clause):
     program = ctx.program
     cls = program.cls(PARSER)
-    methods = {n: m for n, m in cls.methods.items()}
+    absorbed = set(cls.methods[next(iter(cls.methods))].module.normalised.get('__absorbed__', ())) if cls.methods else set()
+    # (new private methods read through at every call are analysed inside their callers)
+    methods = {n: m for n, m in cls.methods.items() if m.qualname not in absorbed}
+    length_names = {'len(self.sequence)', 'len(self._sequence)'}
+    init = cls.methods.get('__init__')
+    if init is not None:
+        # self.sequence = <param> ... self.length = len(<param>)
+        held = {norm_stmt(x.value) for x in walk_own(init.node) if isinstance(x, ast.Assign) and len(x.targets) == 1 and
+                norm_stmt(x.targets[0]) in ('self.sequence', 'self._sequence')}
+        for x in walk_own(init.node):
+            if isinstance(x, ast.Assign) and len(x.targets) == 1 and isinstance(x.value, ast.Call) and \
+                    norm_stmt(x.value.func) == 'len' and len(x.value.args) == 1 and \
+                    norm_stmt(x.value.args[0]) in held | {'self.sequence', 'self._sequence'}:
+                length_names.add(norm_stmt(x.targets[0]))
     # which methods advance the cursor (transitively)
     advancing: Set[str] = set()
     changed = True
@@ -304,6 +317,15 @@ def cursor_typestate(ctx, rep, clause):
                 for t, pol in dominating_tests(m.node, x):
                     tt = norm_stmt(t)
                     if idx in tt and 'len(self.sequence)' in tt and pol:
+                        guarded = True
+                # the index is the variable of `for i in range(.., <length of the input>)`
+                for y in walk_own(m.node):
+                    if isinstance(y, ast.For) and isinstance(y.target, ast.Name) and y.target.id == idx and \
+                            isinstance(y.iter, ast.Call) and norm_stmt(y.iter.func) == 'range' and \
+                            1 <= len(y.iter.args) <= 2 and norm_stmt(y.iter.args[-1]) in length_names and \
+                            any(z is x for b_ in y.body for z in ast.walk(b_)) and \
+                            not any(isinstance(z, ast.Name) and z.id == idx and isinstance(z.ctx, ast.Store)
+                                    for b_ in y.body for z in ast.walk(b_)):
                         guarded = True
                 # a short-circuit conjunct to the left inside the same test also guards
                 for y in walk_own(m.node):
@@ -640,6 +662,48 @@ def _advance_counts(stmts, cursors, acc=0):
     return _advance_counts(rest, cursors, acc + k)
 
 
+def resolution_independent_of_residues(ctx, rep, clause):
+    """whether a modification value is resolved (and so validated) does not depend on the residues of the peptide: in
+    mass() and comp(), no test that decides if the resolver is called, and no guard of a `continue` before it in the
+    same loop, reads the sequence.  (`if aa_count == 0: continue` in front of mod_mass() lets an unresolvable static
+    rule through whenever its target residue is absent.)"""
+    from ..canon import Canon
+    from ..guards import dominating_tests
+    resolvers = {'mod_mass', 'mod_comp', '_parse_mod_delta_mass_only'}
+    n = 0
+    for fq in ('peptacular.mass_calc:mass', 'peptacular.mass_calc:comp'):
+        f = ctx.program.func(fq)
+        c = Canon(f.node)
+
+        def reads_sequence(t) -> bool:
+            r = c.resolve(t)
+            return any(isinstance(y, ast.Attribute) and y.attr in ('sequence', '_sequence', 'stripped_sequence')
+                       for y in ast.walk(r))
+        for loop in [x for x in walk_own(f.node) if isinstance(x, ast.For)]:
+            calls = [y for st in loop.body for y in ast.walk(st) if isinstance(y, ast.Call) and
+                     norm_stmt(y.func).split('.')[-1] in resolvers]
+            if not calls:
+                continue
+            first = min(calls, key=lambda y: getattr(y, 'order', y.lineno))
+            guards = []
+            for t, _pol in dominating_tests(loop, first):
+                guards.append(t)
+            for st in loop.body:
+                if getattr(st, 'order', st.lineno) >= getattr(first, 'order', first.lineno):
+                    break
+                if isinstance(st, ast.If) and any(isinstance(z, (ast.Continue, ast.Break)) for b in (st.body, st.orelse)
+                                                  for s_ in b for z in ast.walk(s_)):
+                    guards.append(st.test)
+            bad = [t for t in guards if reads_sequence(t)]
+            n += 1
+            ob(rep, 'EXC-resolve', f.fq, f'loop at `{norm_stmt(loop.target)} in {norm_stmt(loop.iter)[:40]}`: the resolver '
+               f'is called whatever the residues are', not bad, f'{len(guards)} guard(s), none reads the sequence',
+               f'`{norm_stmt(bad[0])[:70] if bad else ""}` depends on the residues of the peptide and decides whether '
+               f'`{norm_stmt(first)[:50]}` runs: a modification value that cannot be resolved goes unnoticed (contributes '
+               f'nothing) when the residues it applies to are absent', f.loc(bad[0]) if bad else f.loc(loop), clause)
+    rep.floor('EXC-resolve', 'loops that resolve modification values', n, 3)
+
+
 def multiplier_is_a_number(ctx, rep, clause):
     """the multiplier handed to Mod(.., <multiplier>) by the parser is a number on every path: the constant 1, or
     int(<digits>) (which raises ValueError, re-raised as a format error, when there are no digits) -- never None or text.
@@ -647,10 +711,11 @@ def multiplier_is_a_number(ctx, rep, clause):
     program = ctx.program
     f = program.func(f'{PP}:_ProFormaParser._parse_modification')
     ctor = [n for n in walk_own(f.node) if isinstance(n, ast.Call) and isinstance(n.func, ast.Name) and n.func.id == 'Mod']
-    if len(ctor) != 1:
+    if not ctor:
         raise AnalysisError('_parse_modification: the Mod(...) construction was not found')
-    arg = ctor[0].args[1] if len(ctor[0].args) > 1 else next((kw.value for kw in ctor[0].keywords if kw.arg == 'mult'), None)
-    if arg is None:
+    args_ = [c_.args[1] if len(c_.args) > 1 else next((kw.value for kw in c_.keywords if kw.arg == 'mult'), None)
+             for c_ in ctor]
+    if any(a is None for a in args_):
         raise AnalysisError('_parse_modification: Mod(...) is built without a multiplier')
 
     def numeric(e) -> Optional[bool]:
@@ -662,10 +727,13 @@ def multiplier_is_a_number(ctx, rep, clause):
             a, b = numeric(e.body), numeric(e.orelse)
             return None if a is None or b is None else a and b
         return None
-    values = [arg]
-    if isinstance(arg, ast.Name):
-        values = [a.value for a in walk_own(f.node) if isinstance(a, ast.Assign) and
-                  any(isinstance(t, ast.Name) and t.id == arg.id for t in a.targets)]
+    values = []
+    for arg in args_:        # one construction per path (early return for the plain case) or one for all
+        if isinstance(arg, ast.Name):
+            values += [a.value for a in walk_own(f.node) if isinstance(a, ast.Assign) and
+                       any(isinstance(t, ast.Name) and t.id == arg.id for t in a.targets)]
+        else:
+            values.append(arg)
     verdicts = [(v, numeric(v)) for v in values]
     if not values or any(ok is None for _v, ok in verdicts):
         raise AnalysisError('_parse_modification: a binding of the multiplier is neither a constant nor int(...): '
@@ -720,21 +788,54 @@ def char_case_progress(ctx, rep, clause):
                     return True    # cursor = <position found at or after the cursor> + k
                 return False
 
-            def follow(stmts, ge) -> bool:
+            def strictly_ahead(e, ge) -> bool:
+                """is the value of e a position after the cursor, in the case at hand?"""
+                if isinstance(e, ast.BinOp) and isinstance(e.op, ast.Add) and isinstance(e.right, ast.Constant) and \
+                        isinstance(e.right.value, int) and e.right.value > 0:
+                    return True     # <position found at or after the cursor> + k   (as for a direct assignment)
+                # next((i for i in range(CUR, len(S)) if P(S[i])), len(S)): the first candidate is the cursor itself; when
+                # P is decided false there (the current character is in another class) the result lies after it -- a later
+                # index, or len(S), which the loop test puts after the cursor
+                if isinstance(e, ast.Call) and norm_stmt(e.func) == 'next' and len(e.args) == 2 and \
+                        isinstance(e.args[0], ast.GeneratorExp) and len(e.args[0].generators) == 1 and \
+                        norm_stmt(e.args[1]) == f'len({subj})':
+                    g = e.args[0].generators[0]
+                    if isinstance(g.target, ast.Name) and isinstance(e.args[0].elt, ast.Name) and \
+                            e.args[0].elt.id == g.target.id and isinstance(g.iter, ast.Call) and \
+                            norm_stmt(g.iter.func) == 'range' and len(g.iter.args) == 2 and \
+                            norm_stmt(g.iter.args[0]) == cur and norm_stmt(g.iter.args[1]) == f'len({subj})' and g.ifs:
+                        class _AtCursor(ast.NodeTransformer):
+                            def visit_Name(self, n_):
+                                return ast.copy_location(ast.Name(id=cur, ctx=ast.Load()), n_) if n_.id == g.target.id else n_
+                        import copy as _copy
+                        firsts = [ge.eval(_AtCursor().visit(_copy.deepcopy(t))) for t in g.ifs]
+                        return any(v is not U and not v for v in firsts)
+                return False
+
+            def follow(stmts, ge, ahead=frozenset()) -> bool:
                 """True when every path through stmts advances the cursor or leaves the loop"""
                 for k_, st in enumerate(stmts):
                     if isinstance(st, (ast.Raise, ast.Return, ast.Break)) or advances(st):
                         return True
+                    if isinstance(st, ast.Assign) and len(st.targets) == 1 and isinstance(st.targets[0], ast.Name):
+                        tname = st.targets[0].id
+                        if tname == cur and isinstance(st.value, ast.Name) and st.value.id in ahead:
+                            return True            # cursor = <a position known to lie after it>
+                        if tname == cur and strictly_ahead(st.value, ge):
+                            return True
+                        if tname != cur:
+                            ahead = (ahead | {tname}) if strictly_ahead(st.value, ge) else (ahead - {tname})
+                        continue
                     if isinstance(st, ast.Continue):
                         return False
                     if isinstance(st, ast.If):
                         v = ge.eval(st.test)
                         rest = list(stmts[k_ + 1:])
                         if v is U:
-                            return follow(list(st.body) + rest, ge) and follow(list(st.orelse) + rest, ge)
-                        return follow((list(st.body) if v else list(st.orelse)) + rest, ge)
+                            return follow(list(st.body) + rest, ge, ahead) and follow(list(st.orelse) + rest, ge, ahead)
+                        return follow((list(st.body) if v else list(st.orelse)) + rest, ge, ahead)
                     if isinstance(st, ast.While):
-                        if ge.eval(st.test) is True and follow(list(st.body), ge):
+                        if ge.eval(st.test) is True and follow(list(st.body), ge, ahead):
                             return True
                         continue
                     if isinstance(st, (ast.For, ast.Try, ast.With)):
@@ -957,6 +1058,7 @@ def check(ctx, rep):
     loop_progress(ctx, rep, 'C09d')
     char_case_progress(ctx, rep, 'C09d')
     multiplier_is_a_number(ctx, rep, 'C09a')
+    resolution_independent_of_residues(ctx, rep, 'C09e')
     error_marker_bounds(ctx, rep, 'C09a')
     designed_zero(ctx, rep, 'C09e')
     deferred = reachable(an, program, ['peptacular.mass_calc:mod_mass', 'peptacular.chem.chem_calc:mod_comp',
